@@ -40,6 +40,9 @@ def escaped_form(tok: str) -> str | None:
     """How a line-leading marker may legitimately be protected by a backslash."""
     if tok in HAZ or (tok and set(tok) == {"#"}):
         return "\\" + tok
+    if tok.startswith((">", "```", "~~~")) or (len(tok) >= 1 and set(tok) <= {"-"}) or (tok and set(tok) <= {"="}) \
+            or (len(tok) >= 3 and (set(tok) <= {"*"} or set(tok) <= {"_"})):
+        return "\\" + tok
     if len(tok) >= 2 and tok[:-1].isdigit() and tok[-1] in ".)":
         return tok[:-1] + "\\" + tok[-1]
     return None
